@@ -1,7 +1,7 @@
 (* C02 - instantiation for every tabulated setting (Gen/SGTables.v is regenerated from /repo on every run). *)
 From Coq Require Import ZArith List Bool Lia Permutation.
-From DS Require Import Base.ZMat Base.SGDefs Model.GroupCheck Model.C02_Orbit Gen.SGTables.
-From DS Require Import Proofs.C03All Proofs.C02_Action Proofs.C02_Expand Proofs.C02_OrbitStab.
+From DS Require Import Base.ZMat Base.SGDefs Model.GroupCheck Model.C02_Orbit Model.C02_Eps Gen.SGTables.
+From DS Require Import Proofs.C03All Proofs.C02_Action Proofs.C02_Expand Proofs.C02_OrbitStab Proofs.C02_EpsSound.
 Import ListNotations.
 Open Scope Z_scope.
 
@@ -31,3 +31,58 @@ Proof.
   apply existsb_exists in H as [s [Hs Hb]]. exists s. split; [exact Hs|].
   cbv zeta in *. rewrite !andb_true_iff, !Nat.eqb_eq in Hb. tauto.
 Qed.
+
+(* the tolerance algorithm on a tabulated setting, for a site whose distinct images are separated *)
+Lemma expand_eps_spec_tabulated : forall s D off x, In s all_settings -> 0 < D -> (12 | D) ->
+  separated D (sg_ops s) off x ->
+  let G := sg_ops s in
+  let '(pos, ops, m) := expand_eps D G off x in
+  NoDup pos /\ (forall p, In p pos -> in_cell D p) /\ hd_error pos = Some (red D x) /\
+  (forall p, In p pos <-> exists g, In g G /\ p = img D g off x) /\
+  attribution_ok D G off x pos ops /\ Permutation (concat ops) G /\ m = List.length pos /\
+  (m * List.length (stab D G off x))%nat = List.length G.
+Proof.
+  intros s D off x Hs HD H12 Hsep. cbv zeta. rewrite (expand_eps_exact D (sg_ops s) off x HD Hsep).
+  apply (expand_exact_spec_tabulated s D off x Hs HD H12).
+Qed.
+
+(* decidable form of the separation hypothesis *)
+Definition separatedb (D : Z) (G : list symop) (off x : v3) : bool :=
+  let ims := map (fun g => img D g off x) G in
+  forallb (fun p => forallb (fun q => v3_eqb p q || (2 * D <? 100000 * boxdist D p q)) ims) ims.
+
+Lemma separatedb_spec D G off x : separatedb D G off x = true -> separated D G off x.
+Proof.
+  unfold separatedb, separated, far. cbv zeta. intros H g h Hg Hh Hne.
+  rewrite forallb_forall in H. specialize (H (img D g off x) (in_map _ _ _ Hg)).
+  rewrite forallb_forall in H. specialize (H (img D h off x) (in_map _ _ _ Hh)).
+  apply orb_true_iff in H as [H|H]; [apply v3_eqb_eq in H; contradiction | apply Z.ltb_lt in H; exact H].
+Qed.
+
+(* Non-vacuity of the separation hypothesis: the special site of `special_site_instance`
+   (32 positions in a 192-operation setting, shifted origin) is separated. *)
+Example separated_instance : exists s, In s all_settings /\ List.length (sg_ops s) = 192%nat /\
+  separated 120000000 (sg_ops s) (V3 30000000 30000000 30000000) (V3 (-18000000) (-18000000) (-18000000)) /\
+  snd (expand_eps 120000000 (sg_ops s) (V3 30000000 30000000 30000000) (V3 (-18000000) (-18000000) (-18000000))) = 32%nat.
+Proof.
+  assert (H : existsb (fun s => let G := sg_ops s in
+     if (List.length G =? 192)%nat then
+       if (snd (expand_exact 120000000 G (V3 30000000 30000000 30000000) (V3 (-18000000) (-18000000) (-18000000))) =? 32)%nat then
+         separatedb 120000000 G (V3 30000000 30000000 30000000) (V3 (-18000000) (-18000000) (-18000000)) &&
+         (snd (expand_eps 120000000 G (V3 30000000 30000000 30000000) (V3 (-18000000) (-18000000) (-18000000))) =? 32)%nat
+       else false else false) all_settings = true)
+    by (vm_compute; reflexivity).
+  apply existsb_exists in H as [s [Hs Hb]]. exists s. split; [exact Hs|].
+  cbv zeta in Hb.
+  destruct (List.length (sg_ops s) =? 192)%nat eqn:E1; [|discriminate]. apply Nat.eqb_eq in E1.
+  destruct (snd (expand_exact 120000000 (sg_ops s) (V3 30000000 30000000 30000000) (V3 (-18000000) (-18000000) (-18000000))) =? 32)%nat; [|discriminate].
+  rewrite andb_true_iff, Nat.eqb_eq in Hb. destruct Hb as [H2 H3].
+  split; [exact E1|]. split; [apply separatedb_spec; exact H2 | exact H3].
+Qed.
+
+(* The hypothesis is needed: a site 1e-7 away from an inversion centre of P-1 is merged by the tolerance
+   algorithm (1 position carrying both operations), the exact expansion has 2 positions. *)
+Example eps_merges_within_tolerance :
+  let G := [(I3, v0); (M3 (-1) 0 0 0 (-1) 0 0 0 (-1), v0)] in
+  snd (expand_eps 120000000 G v0 (V3 12 0 0)) = 1%nat /\ snd (expand_exact 120000000 G v0 (V3 12 0 0)) = 2%nat.
+Proof. vm_compute. split; reflexivity. Qed.
